@@ -125,6 +125,10 @@ def check(ctx):
     ctx.ob("ABS.repartition.boundaries-cover", rfb, "boundaries are made to start at 0 and to end at bag.npartitions", ok, "" if ok else "float rounding of new*(old/new) can stop one short: the last input partition is silently dropped")
     ok = bool(find("num_new_partitions = len(new_partitions_boundaries) - 1", rfb))
     ctx.ob("ABS.repartition.count", rfb, "one output partition per consecutive boundary pair", ok)
+    # ---------------- foldby with combine_initial: partial results are combined LEFT to RIGHT (accumulator first)
+    fc2 = ctx.model.module("dask/bag/chunk.py").func("foldby_combine2")
+    ok = (all(eqv(r.value, "combine(acc, x[1])") for r in returns(fc2)) and bool(returns(fc2)))
+    ctx.ob("ARGPOS.foldby-combine.order", fc2, "foldby_combine2(combine, acc, x) = combine(acc, x[1])", ok, "" if ok else "partials are merged in reversed partition order: wrong for non-commutative combine functions")
 
 
 VARIANTS = [
